@@ -119,6 +119,8 @@ class IsaCheck:
         self.outs = outs
         self.w0 = w0
         self.findings = {}
+        self._exas = {}
+        self._touched = False
         self._acc = {}
         self.last_full = None
         self.last_code = None
@@ -154,6 +156,7 @@ class IsaCheck:
         """record a finding; the same (form, aspect) reported by several traces is ONE finding whose condition is the
         union over the traces, so that its fingerprint does not depend on how the code happens to be partitioned"""
         key = "%s|%s" % (form, aspect)
+        self._touched = True
         Mx = bv.M
         full = self.last_full if self.last_full not in (None, 0) else cond
         code = None
@@ -322,7 +325,10 @@ class IsaCheck:
                     # a trace the interpreter followed imprecisely decides nothing: never a finding, always a checker error
                     self.add(["ENGINE"], name, "imprecise", "a trace of %s was followed imprecisely (%s): not decidable" % (name, ",".join(imprecise)), care)
                     continue
+                self._touched = False
                 self.compare(o, f, sem, care, fs)
+                if self._touched and o.kind == "return" and isinstance(o.value, Enum) and o.value.variant == models.OK:
+                    self.executes_as(o, f, care, fixed)
                 if len(self.samples) < 6 and o.kind == "return":
                     self.samples.append({"form": name, "trace_outcome": o.kind, "decode_bits_fixed": len(fixed),
                                          "effects": [e[0] for e in st.eff], "path_condition_nodes": Mx.size(st.pc)})
@@ -348,6 +354,14 @@ class IsaCheck:
             self.count(hit == 0)
             if hit != 0:
                 self.add(["C07"], u.name, "unimpl-executed", "an encoding of the unimplemented instruction %s has a successful execution path" % u.name, hit)
+        for fname, (ndev, cand) in sorted(self._exas.items()):
+            for gname, (nsame, cond_) in sorted(cand.items()):
+                if ndev >= 1 and nsame == ndev:
+                    self.cls = "decode"
+                    self.count(False)
+                    self.add(["C07"], fname, "executes-as", "every deviating execution of %s has exactly the effect of %s (registers, flags, PC, accesses): the word is decoded as "
+                             "the wrong instruction" % (fname, gname), cond_, {"as": gname})
+                    break
         self.check_undefined()
         self.finalise()
         return self.findings
@@ -445,6 +459,57 @@ class IsaCheck:
                         ws.append("%04X" % v)
                 self.add(["C07"], "H'%02Xxx" % hb, "undefined-executed", "a word sequence that encodes no H8/300H instruction (e.g. %s) is executed successfully instead of being rejected; "
                          "it is not among the reserved-bit patterns the emulator is known to ignore" % " ".join(ws), new)
+
+    def executes_as(self, o, f, care, fixed):
+        """a trace of form F that deviates from F's reference: does it behave exactly like a DIFFERENT implemented instruction with the
+        same operand fields (e.g. ADDX Rs,Rd executed as ADD.B Rs,Rd)?  Then the word is decoded as the wrong instruction (C07)."""
+        Mx = bv.M
+        val = o.value
+        if not isinstance(val, Enum) or val.variant != models.OK:
+            return
+
+        def layout(words):
+            return tuple("".join(ch if ch not in "01" else "." for ch in w) for w in words)
+        lay = layout(f.words)
+        # verdict per form at the end: EVERY deviating trace of F must behave like the same G (a data-dependent sub-case that happens to
+        # coincide with a sibling - SHAL with a clear sign bit and SHLL - is not a decode matter)
+        rec = self._exas.setdefault(f.name, [0, {}])
+        rec[0] += 1
+        cpu = o.state.mem[("h", "cpu")]
+        fi = self.isa.fi
+        ccr = cpu.fields[fi["ccr"]].bits
+        carr = cpu.fields[fi["er"]]
+        cm = [e for e in o.state.eff if e[0] in ("memread", "memwrite")]
+        for g in spec.FORMS:
+            if g is f or len(g.words) != len(f.words) or layout(g.words) != lay or g.family == f.family and g.name == f.name:
+                continue
+            try:
+                sem = spec.Sem(self.ip, g, self.pc_entry, self.ccr0, fixed)
+                g.sem(sem)
+            except Exception:
+                continue
+            c2 = Mx.AND(care, sem.assume)
+            if c2 == 0 or sem.mes or len(cm) != len(sem.mem):
+                continue
+            same = self.differs(cpu.fields[fi["pc"]].bits, sem.pc, c2) == 0
+            i = 0
+            while same and i < 8:
+                if ("ccr." + spec.FLAG_NAMES[i]) not in sem.unchecked:
+                    same = self.differs((ccr[i],), (sem.ccr[i],), c2) == 0
+                i += 1
+            k = 0
+            while same and k < 8:
+                same = self.differs(self.ip.arr_read(carr, bv.const(k, 3)), self.ip.arr_read(sem.regs, bv.const(k, 3)), c2) == 0
+                k += 1
+            if same:
+                for ce, se in zip(cm, sem.mem):
+                    if ("r" if ce[0] == "memread" else "w") != se[0] or self.differs(ce[1], se[1], c2) != 0:
+                        same = False
+                        break
+            if same:
+                rec[1].setdefault(g.name, [0, 0])
+                rec[1][g.name][0] += 1
+                rec[1][g.name][1] = Mx.OR(rec[1][g.name][1], c2)
 
     def compare(self, o, f, sem, care, fs):
         Mx = bv.M
